@@ -24,6 +24,7 @@ import (
 	"context"
 	"fmt"
 	"os"
+	"runtime"
 	"sort"
 	"strings"
 	"sync"
@@ -581,8 +582,8 @@ func vpC15RunScenario(t *rapid.T, sc vpC15Scenario) {
 			returned = true
 		case <-time.After(max):
 			open := s.open.Load()
-			t.Fatalf("Shutdown did not return within %v after the last handler was released (open=%d, unfinished handlers=%v)\nscenario: %s",
-				max, open, r.log.unfinished(), sc)
+			t.Fatalf("Shutdown did not return within %v after the last handler was released (open=%d, unfinished handlers=%v)\nscenario: %s\n%s",
+				max, open, r.log.unfinished(), sc, vpC15Stacks("Shutdown", "serveConn"))
 		}
 	}
 	class := "Shutdown"
@@ -763,6 +764,28 @@ func vpC15RunScenario(t *rapid.T, sc vpC15Scenario) {
 			t.Fatalf("handler %s was released by the harness fallback, not by ctx.Done()\nscenario: %s", id, sc)
 		}
 	}
+}
+
+// vpC15Stacks returns the stacks of the goroutines whose trace mentions one of the needles.
+func vpC15Stacks(needles ...string) string {
+	buf := make([]byte, 1<<20)
+	buf = buf[:runtime.Stack(buf, true)]
+	var out []string
+	for _, g := range strings.Split(string(buf), "\n\n") {
+		for _, n := range needles {
+			if strings.Contains(g, n) {
+				if len(g) > 1500 {
+					g = g[:1500] + "..."
+				}
+				out = append(out, g)
+				break
+			}
+		}
+	}
+	if len(out) > 6 {
+		out = out[:6]
+	}
+	return "goroutines:\n" + strings.Join(out, "\n\n")
 }
 
 func TestVP_C15_Shutdown(t *testing.T) {
